@@ -25,7 +25,11 @@ class An:
     def site(self, bb=None):
         if bb is None:
             return self.inst.get("span", "?")
-        return self.body.term(bb).get("span", self.inst.get("span", "?"))
+        sp = self.body.term(bb).get("span", self.inst.get("span", "?"))
+        if sp.startswith("/"):
+            # block of a std body spliced in by INLINE: report the enclosing repo function
+            return self.inst.get("span", "?")
+        return sp
 
 
 def of(F, inst):
